@@ -27,7 +27,7 @@ def showG (g : GState) : String :=
 
 def parseOQ (s : String) : Option OQ := if s = "-" then some none else (parseRat s).map some
 
-def call (g : GState) (ws : List String) : Option (Except Err GState) :=
+def call (g : GState) (ws : List String) : Option (GState × Option Err) :=
   match ws with
   | ["spin", m, v] => do let m ← SpinMode.ofValue? m; let v ← BuilderDrv.parseVal v; pure (g._set_spin_mode m v)
   | ["pmode", m, v] => do let m ← PowerMode.ofValue? m; let v ← BuilderDrv.parseVal v; pure (g._set_power_mode m v)
@@ -54,10 +54,10 @@ def call (g : GState) (ws : List String) : Option (Except Err GState) :=
       | _ => none
   | ["bounds", name, lo, hi] => do
       let k ← kindOfName name; let lo ← parseRat lo; let hi ← parseRat hi
-      pure (.ok { g with _user_bounds := g._user_bounds.set k (lo, hi) })
+      pure ({ g with _user_bounds := g._user_bounds.set k (lo, hi) }, none)
   | ["boundsaxes", a, b, c, d, e, f] => do
       let a ← parseRat a; let b ← parseRat b; let c ← parseRat c; let d ← parseRat d; let e ← parseRat e; let f ← parseRat f
-      pure (.ok { g with _user_bounds := { g._user_bounds with axes := some (⟨a, b, c⟩, ⟨d, e, f⟩) } })
+      pure ({ g with _user_bounds := { g._user_bounds with axes := some (⟨a, b, c⟩, ⟨d, e, f⟩) } }, none)
   | _ => none
 
 def errName : Err → String | .valueError => "valueError" | .toolState => "toolState" | .coolantState => "coolantState"
@@ -68,10 +68,10 @@ def step (g : Option GState) (line : String) : Option GState × String :=
   | some g =>
     match call g (words line) with
     | none => (some g, "bad-op " ++ line)
-    | some (.ok g') => (some g', "out=ok " ++ showG g')
-    | some (.error e) => (some g, s!"out={errName e} " ++ showG g)
+    | some (g', none) => (some g', "out=ok " ++ showG g')
+    | some (g', some e) => (some g', s!"out={errName e} " ++ showG g')   -- the state as the raising method left it
 
-def initial : Option GState := match GState.init with | .ok g => some g | .error _ => none
+def initial : Option GState := match GState.init with | (g, none) => some g | (_, some _) => none
 
 def main : IO Unit := Proto.loopState initial step
 end GscribModel.GStateDrv
